@@ -139,7 +139,7 @@ func specRel(opts []layers.TCPOption, a int, o int, isn uint32) uint32 {
 //@ loop 1 invariant[found]  foundSackPermitted == exists(a, 0, range_i, s.parser.TCP.Options[a].OptionType == layers.TCPOptionKindSACKPermitted)
 
 //@ func (*sackDriver).ReadHandshake
-//@ safety C10 C20
+//@ safety C10 C20 C08
 //@ requires[pre.nonnil]     s != nil && s.source != nil && s.parser != nil && s.parser.parserv4 != nil && s.parser.parserv6 != nil
 //@ requires[C10.hs.open]    selb(isOpen, ref(s.source))
 //@ ensures[C20.hs.done]     ret0 == nil ==> s.state != nil
@@ -149,7 +149,7 @@ func specRel(opts []layers.TCPOption, a int, o int, isn uint32) uint32 {
 
 // dialSackTCP: the only place a TCP connection to the target is opened. It returns an open connection or an error.
 //@ func dialSackTCP
-//@ safety C10
+//@ safety C10 C08
 //@ requires[pre.ctx]         ctx != nil
 //@ ensures[C10.dial.atom]    (ret1 != nil) == (ret0 == nil)
 //@ ensures[C10.dial.ok]      ret1 == nil ==> selb(isOpen, ref(ret0)) && !old(selb(isOpen, ref(ret0)))
@@ -211,7 +211,7 @@ func specRel(opts []layers.TCPOption, a int, o int, isn uint32) uint32 {
 //@ ensures[C19.sack.zero]   ret1 == nil ==> forall(k, 0, len(ret0.sendTimes), ret0.sendTimes[k] == 0)
 
 //@ func (*sackDriver).ReceiveProbe
-//@ safety C09 C14
+//@ safety C09 C14 C08
 //@ requires[pre.nonnil]     s != nil && s.source != nil && s.parser != nil && s.parser.parserv4 != nil && s.parser.parserv6 != nil
 //@ requires[C10.recv.open]  selb(isOpen, ref(s.source))
 //@ requires[pre.len]        s.state != nil ==> len(s.sendTimes) == int(s.params.ParallelParams.MaxTTL)+1
